@@ -15,7 +15,7 @@
 From Coq Require Import ZArith List Bool.
 Import ListNotations.
 From Sunrise Require Import Base.Outcome Base.Dec Econ.Mint Econ.MintProofs Amm.Math Amm.Pool Stake.TallyCore
-  Sys.Blocks Sys.BlocksProofs Sys.MintTotal Sys.Loops Sys.LoopsProofs Sys.SwapLoopProofs.
+  Sys.Blocks Sys.BlocksProofs Sys.MintTotal Sys.Loops Sys.LoopsProofs Sys.SwapLoopProofs Sys.VerdictProofs.
 From Sunrise Require Stake.Gauge Stake.GaugeProofs Stake.ShareClass Da.Da Da.Tally.
 Local Open Scope Z_scope.
 
@@ -157,6 +157,26 @@ Proof. exact validated_pow_converges. Qed.
 Print Assumptions C01_validated_pool_pow_converges.
 (* ApproxRoot: the loop is bounded by its own constant (300 = maxApproxRootIterations) in the
    code and in Base/Dec.v (root_loop 300): nothing to prove. *)
+
+(* what the check computes for a watched transaction is a fact about the loop: a [Hangs]
+   verdict means out of fuel for every fuel up to 10^7, a [Returns n] verdict that at most
+   max(n, cap) iterations suffice (Loops.up_verdict / down_verdict, used by C01Check monitor 2) *)
+Theorem C01_verdict_hangs_up : forall g cap mp offset ratio, up_verdict g cap mp offset ratio = Hangs ->
+  forall fuel t, Z.of_nat fuel <= LIMIT -> search_up_g g fuel mp offset ratio t = Err E_FUEL.
+Proof. exact up_verdict_hangs_sound. Qed.
+Print Assumptions C01_verdict_hangs_up.
+Theorem C01_verdict_hangs_down : forall g cap mp offset ratio, down_verdict g cap mp offset ratio = Hangs ->
+  forall fuel t, Z.of_nat fuel <= LIMIT -> search_down_g g fuel mp offset ratio t = Err E_FUEL.
+Proof. exact down_verdict_hangs_sound. Qed.
+Print Assumptions C01_verdict_hangs_down.
+Theorem C01_verdict_returns_up : forall g cap mp offset ratio n, up_verdict g cap mp offset ratio = Returns n ->
+  exists fuel, Z.of_nat fuel <= Z.max n (Z.of_nat cap) /\ forall t, search_up_g g fuel mp offset ratio t <> Err E_FUEL.
+Proof. exact up_verdict_returns_sound. Qed.
+Print Assumptions C01_verdict_returns_up.
+Theorem C01_verdict_returns_down : forall g cap mp offset ratio n, down_verdict g cap mp offset ratio = Returns n ->
+  exists fuel, Z.of_nat fuel <= Z.max n (Z.of_nat cap) /\ forall t, search_down_g g fuel mp offset ratio t <> Err E_FUEL.
+Proof. exact down_verdict_returns_sound. Qed.
+Print Assumptions C01_verdict_returns_down.
 
 (* ------------------------------------------------------------------ (3) refutations *)
 (* the code as found = [search_up_g false] / [search_down_g false] (no guard) and no validation in
